@@ -152,7 +152,7 @@ def prepare(cases, run_name, cldr=None):
     return root
 
 
-def run(prop, cases, flavours_mode="reference", timeout_ms=20000, jobs=16, run_name=None, cldr=None, extra_key_check=None):
+def run(prop, cases, flavours_mode="reference", timeout_ms=20000, jobs=16, run_name=None, cldr=None, extra_key_check=None, solver_diff=6):
     """Decide every key of every case.
 
     flavours_mode:
@@ -285,6 +285,29 @@ def run(prop, cases, flavours_mode="reference", timeout_ms=20000, jobs=16, run_n
                 stats.inconclusive.append((c.tag, "%s/%s: %s %s" % (".".join(path), label, status, reason)))
                 if status == "inconclusive":
                     stats.eval_errors.append((c, list(path), ns, "%s: %s" % (label, reason)))
+    # second opinion (cvc5, z3 4.8.12) on a sample of the queries: one key per distinct reference shape
+    stats.solver_diff = None
+    if solver_diff and jobs_list:
+        import solverdiff
+        seen_shapes = set()
+        samples = []
+        for (c, ns, path, role, ref), (locales, queries, _) in zip(job_meta, jobs_list):
+            sh = shape_of(ref)
+            if sh in seen_shapes or len(samples) >= 2 * solver_diff:
+                continue
+            seen_shapes.add(sh)
+            for label, a, b, want in (queries[0], queries[-1]):
+                try:
+                    ctx = smt.ctx_for(locales, a, b)
+                    r = smt.differ(ctx, a, b, timeout_ms=timeout_ms, want_smt2=True)
+                except Exception:
+                    continue
+                if r.status in ("sat", "unsat"):
+                    samples.append(("%s %s/%s" % (c.tag, ".".join(path), label), r.smt2, r.status))
+        agree, problems, counts = solverdiff.compare(samples, timeout_s=30)
+        stats.solver_diff = {"queries_cross_checked": len(samples), "agreeing": agree, "per_solver": counts, "disagreements": problems[:5]}
+        for pb in problems:
+            stats.inconclusive.append(("solver-diff", pb))
     stats.wall = time.time() - t0
     stats.host_results = results
     return stats, findings
